@@ -36,10 +36,27 @@ pub struct Profile {
     pub always_ready: bool,
     /// small-scope mode: tiny alphabet, used by the DFS sweep
     pub small: bool,
+    /// DFS sweep: the shape is fixed from outside (no decisions are spent on it)
+    pub force_shape: Option<(Fam, Cont, usize)>,
 }
 
 pub const CONCURRENT: [Fam; 6] = [Fam::Join, Fam::TryJoin, Fam::Race, Fam::RaceOk, Fam::Merge, Fam::Zip];
 pub const STATIC_ALL: [Fam; 11] = [Fam::Join, Fam::TryJoin, Fam::Race, Fam::RaceOk, Fam::Merge, Fam::Zip, Fam::Chain, Fam::FGroup, Fam::SGroup, Fam::WaitF, Fam::WaitS];
+
+/// every flat shape of the small-scope sweep: 7 families x {tuple, array, Vec} x n in 1..=max_n that can be built
+pub fn small_shapes(max_n: usize) -> Vec<(Fam, Cont, usize)> {
+    let mut v = vec![];
+    for fam in CONCURRENT.iter().cloned().chain([Fam::Chain]) {
+        for cont in [Cont::Tuple, Cont::Array, Cont::Vec] {
+            for n in 1..=max_n {
+                if supported(fam, cont, n) {
+                    v.push((fam, cont, n));
+                }
+            }
+        }
+    }
+    v
+}
 
 pub fn profile(prop: &str, thorough: bool) -> Profile {
     let all_conts = vec![Cont::Tuple, Cont::Array, Cont::Vec, Cont::Ext, Cont::Group];
@@ -64,6 +81,7 @@ pub fn profile(prop: &str, thorough: bool) -> Profile {
         max_pend: 3,
         always_ready: false,
         small: false,
+        force_shape: None,
     };
     let bigs = vec![22, 23, 24, 40, 63, 64, 65, 128, 129, 200, 256, 257];
     match prop {
@@ -81,7 +99,9 @@ pub fn profile(prop: &str, thorough: bool) -> Profile {
         "C16" => Profile { name: "C16", fams: vec![Fam::Join, Fam::TryJoin, Fam::Merge, Fam::Zip, Fam::FGroup, Fam::SGroup], spurious: 6, err_pct: 15, big_lens: bigs, big_pct: 6, max_n: 12, ..base },
         "C17" => Profile { name: "C17", fams: vec![Fam::Merge], conts: vec![Cont::Tuple, Cont::Array, Cont::Vec, Cont::Ext], nested_pct: 0, always_ready: true, never_pct: 10, max_items: 8, max_n: 12, ..base },
         "C19" => Profile { name: "C19", fams: vec![Fam::WaitF, Fam::WaitS], nested_pct: 15, spurious: 5, ..base },
-        "SMALL" => Profile { name: "SMALL", fams: CONCURRENT.iter().cloned().chain([Fam::Chain]).collect(), conts: vec![Cont::Tuple, Cont::Array, Cont::Vec], max_n: 2, nested_pct: 0, never_pct: 0, spurious: 1, midfire_pct: 0, stale_pct: 0, reuse_waker_pct: 0, max_items: 1, max_pend: 1, small: true, ..base },
+        // SMALL: n <= 2, mid-poll cross fires on; SMALL3: n <= 3, longer scripts, no mid-poll fires
+        "SMALL3" => Profile { name: "SMALL3", fams: CONCURRENT.iter().cloned().chain([Fam::Chain]).collect(), conts: vec![Cont::Tuple, Cont::Array, Cont::Vec], max_n: 3, nested_pct: 0, never_pct: 0, spurious: 1, midfire_pct: 0, stale_pct: 0, reuse_waker_pct: 0, max_items: 2, max_pend: 2, small: true, ..base },
+        "SMALL" => Profile { name: "SMALL", fams: CONCURRENT.iter().cloned().chain([Fam::Chain]).collect(), conts: vec![Cont::Tuple, Cont::Array, Cont::Vec], max_n: 2, nested_pct: 0, never_pct: 0, spurious: 1, midfire_pct: 50, stale_pct: 0, reuse_waker_pct: 0, max_items: 1, max_pend: 1, small: true, ..base },
         _ => Profile { name: "ALL", ..base },
     }
 }
@@ -132,6 +152,9 @@ pub fn gen_script(w: &mut World, p: &Profile, stream: bool, never: bool, err_pct
 }
 
 fn gen_shape(w: &mut World, p: &Profile) -> Shape {
+    if let Some((fam, cont, n)) = p.force_shape {
+        return Shape::flat(fam, cont, n);
+    }
     for _ in 0..64 {
         let fam = pick(w, &p.fams);
         let cont = match fam {
@@ -318,6 +341,7 @@ pub fn run_case(p: &Profile, case: &CaseA) -> ExecOut {
     w(|w| {
         w.phase = Phase::Constructing;
         w.root = Some(0);
+        w.small_mode = p.small;
     });
     let mut b = Builder { scripts: VecDeque::from(case.leaves.clone()) };
     let built = std::panic::catch_unwind(std::panic::AssertUnwindSafe(|| if case.shape.fam.is_stream() { Root::S(b.build_str(&case.shape, None)) } else { Root::F(b.build_fut(&case.shape, None)) }));
@@ -376,6 +400,10 @@ pub fn run_case(p: &Profile, case: &CaseA) -> ExecOut {
         }
         if opts.is_empty() {
             break; // quiescent
+        }
+        if p.small {
+            // systematic sweep: the weights above would only duplicate branches
+            opts.dedup();
         }
         let o = opts[w(|w| w.below(opts.len()))];
         match o {
@@ -461,7 +489,7 @@ pub fn run_case(p: &Profile, case: &CaseA) -> ExecOut {
             }
             1 => {
                 let c = outstanding[w(|w| w.below(outstanding.len()))];
-                let (i, bv, twice) = w(|w| (w.ch[c].wakers.len() - 1, w.below(4) == 0, w.below(6) == 0));
+                let (i, bv, twice) = w(|w| if p.small { (w.ch[c].wakers.len() - 1, false, false) } else { (w.ch[c].wakers.len() - 1, w.below(4) == 0, w.below(6) == 0) });
                 fire(c, i, bv, FireCtx::Between);
                 w(|w| model::i1_check(w, "after fire"));
                 if twice {
@@ -487,6 +515,7 @@ pub fn run_case(p: &Profile, case: &CaseA) -> ExecOut {
     if !cancelled && out.inconclusive.is_none() && rl == RootLast::Pending {
         w(|w| model::i6_check(w));
     }
+    w(|w| w.small_mode = p.small);
     finish(&mut out, root.take().map(|r| Box::new(move || drop(r)) as Box<dyn FnOnce()>), received, polls0, pend0, cancelled);
     out
 }
@@ -523,7 +552,15 @@ pub fn finish(out: &mut ExecOut, dropper: Option<Box<dyn FnOnce()>>, received: V
         });
     }
     // wakers that outlive the combinator must stay harmless
-    for _ in 0..3 {
+    let small = w(|w| w.small_mode);
+    if small {
+        // systematic sweep: fire the latest waker of every child once, no decisions spent
+        let all: Vec<(Cid, usize)> = w(|w| w.ch.iter().enumerate().filter(|(_, c)| !c.wakers.is_empty()).map(|(i, c)| (i, c.wakers.len() - 1)).collect());
+        for (c, i) in all {
+            fire(c, i, false, FireCtx::AfterDrop);
+        }
+    }
+    for _ in 0..(if small { 0 } else { 3 }) {
         let pk = w(|w| {
             let with: Vec<Cid> = w.ch.iter().enumerate().filter(|(_, c)| !c.wakers.is_empty()).map(|(i, _)| i).collect();
             if with.is_empty() {
